@@ -13,6 +13,7 @@ import (
 	"regexp"
 	"strconv"
 	"strings"
+	"sync"
 	"time"
 
 	"github.com/BurntSushi/toml"
@@ -46,6 +47,49 @@ func (nopDKGClient) Packet(context.Context, net.Peer, *pdkg.GossipPacket, ...net
 }
 func (nopDKGClient) BroadcastDKG(context.Context, net.Peer, *pdkg.DKGPacket, ...net.CallOption) (*pdkg.EmptyDKGResponse, error) {
 	return &pdkg.EmptyDKGResponse{}, nil
+}
+
+// dkgGatedStore is the process's store with a gate behind GetCurrent: when armed, the read has been done and, before the
+// value is handed back to the caller, `hook` runs (once). Every state written is logged in order.
+type dkgGatedStore struct {
+	dkg.Store
+	mu    sync.Mutex
+	armed bool
+	hook  func()
+	saves []string
+}
+
+func (g *dkgGatedStore) GetCurrent(beaconID string) (*dkg.DBState, error) {
+	st, err := g.Store.GetCurrent(beaconID)
+	g.mu.Lock()
+	run := g.armed
+	g.armed = false
+	h := g.hook
+	g.mu.Unlock()
+	if run && h != nil {
+		h()
+	}
+	return st, err
+}
+
+func (g *dkgGatedStore) SaveCurrent(beaconID string, st *dkg.DBState) error {
+	err := g.Store.SaveCurrent(beaconID, st)
+	if err == nil {
+		g.mu.Lock()
+		g.saves = append(g.saves, st.State.String())
+		g.mu.Unlock()
+	}
+	return err
+}
+
+func (g *dkgGatedStore) SaveFinished(beaconID string, st *dkg.DBState) error {
+	err := g.Store.SaveFinished(beaconID, st)
+	if err == nil {
+		g.mu.Lock()
+		g.saves = append(g.saves, st.State.String())
+		g.mu.Unlock()
+	}
+	return err
 }
 
 type fixedIdentity struct{ pair *key.Pair }
@@ -130,6 +174,7 @@ func classifyDKGErr(err error, isExecute bool) string {
 type dkgsm struct {
 	parts  map[int]*dkgPart
 	proc   *dkg.Process
+	gate   *dkgGatedStore
 	dir    string
 	bid    string
 	me     int
@@ -272,6 +317,70 @@ func (s *dkgsm) group(tok string) (*key.Group, *key.Share) {
 	return g, sh
 }
 
+func (s *dkgsm) buildCmd(f []string) (*pdkg.DKGCommand, bool) {
+	md := &pdkg.CommandMetadata{BeaconID: s.bid}
+	u := func(x string) uint32 { v, _ := strconv.ParseUint(x, 10, 32); return uint32(v) }
+	i64 := func(x string) int64 { v, _ := strconv.ParseInt(x, 10, 64); return v }
+	switch f[1] {
+	case "initial":
+		o := strings.Split(f[2], ":")
+		return &pdkg.DKGCommand{Metadata: md, Command: &pdkg.DKGCommand_Initial{Initial: &pdkg.FirstProposalOptions{
+			Threshold: u(o[1]), Timeout: timestamppb.New(time.Unix(i64(o[2]), 0)), GenesisTime: timestamppb.New(time.Unix(i64(o[3]), 0)),
+			Scheme: o[4], CatchupPeriodSeconds: u(o[5]), PeriodSeconds: u(o[6]), Joining: s.idxs(o[7])}}}, false
+	case "resharing":
+		o := strings.Split(f[2], ":")
+		return &pdkg.DKGCommand{Metadata: md, Command: &pdkg.DKGCommand_Resharing{Resharing: &pdkg.ProposalOptions{
+			Threshold: u(o[1]), Timeout: timestamppb.New(time.Unix(i64(o[2]), 0)), CatchupPeriodSeconds: u(o[3]),
+			Joining: s.idxs(o[4]), Remaining: s.idxs(o[5]), Leaving: s.idxs(o[6])}}}, false
+	case "join":
+		jo := &pdkg.JoinOptions{}
+		if g, _ := s.group(f[2]); g != nil {
+			var buf bytes.Buffer
+			if err := toml.NewEncoder(&buf).Encode(g.TOML()); err != nil {
+				panic(err)
+			}
+			jo.GroupFile = buf.Bytes()
+		}
+		return &pdkg.DKGCommand{Metadata: md, Command: &pdkg.DKGCommand_Join{Join: jo}}, false
+	case "accept":
+		return &pdkg.DKGCommand{Metadata: md, Command: &pdkg.DKGCommand_Accept{Accept: &pdkg.AcceptOptions{}}}, false
+	case "reject":
+		return &pdkg.DKGCommand{Metadata: md, Command: &pdkg.DKGCommand_Reject{Reject: &pdkg.RejectOptions{}}}, false
+	case "execute":
+		return &pdkg.DKGCommand{Metadata: md, Command: &pdkg.DKGCommand_Execute{Execute: &pdkg.ExecutionOptions{}}}, true
+	case "abort":
+		return &pdkg.DKGCommand{Metadata: md, Command: &pdkg.DKGCommand_Abort{Abort: &pdkg.AbortOptions{}}}, false
+	}
+	return nil, false
+}
+
+// buildPkt makes the packet of a `pkt` line and signs it the way an honest sender holding <signedTerms> does: over
+// messageForSigning(beacon id, packet, termsFromState(state holding those terms)). f[4] (the signature id) is filled in.
+func (s *dkgsm) buildPkt(f []string) (*pdkg.GossipPacket, bool) {
+	sent := s.packet(f[1])
+	sender, _ := strconv.Atoi(f[3])
+	keyIdx, _ := strconv.Atoi(f[5])
+	signedPkt := s.packet(f[7])
+	signedTerms := s.terms(f[8])
+	msg := dkg.VerifMessageForSigning(f[6], signedPkt, dkg.VerifTermsAsSigned(signedTerms))
+	kp := s.parts[keyIdx].pair
+	sig, err := kp.Scheme().AuthScheme.Sign(kp.Key, msg)
+	if err != nil {
+		panic(err)
+	}
+	sigid := f[4]
+	if sigid == "?" {
+		sigid = hex.EncodeToString(sig)
+	} else if strings.HasPrefix(sigid, "short") {
+		sig = []byte{1, 2, 3}
+		sigid = hex.EncodeToString(sig)
+	}
+	f[4] = sigid
+	sent.Metadata = &pdkg.GossipMetadata{BeaconID: f[2], Address: s.parts[sender].p.Address, Signature: sig}
+	_, isExec := sent.Packet.(*pdkg.GossipPacket_Execute)
+	return sent, isExec
+}
+
 var reRel = regexp.MustCompile(`@([+-]\d+)`)
 
 func dkgsmEngine(_ []string, in *bufio.Scanner, out *bufio.Writer) {
@@ -321,6 +430,20 @@ func dkgsmEngine(_ []string, in *bufio.Scanner, out *bufio.Writer) {
 					j, _ := strconv.Atoi(kind[6:])
 					addr = s.parts[j].p.Address
 				}
+				if strings.HasPrefix(kind, "embed:") { // embed:<j>:<role>:<k>: j's address and key; signature = j's signature followed by
+					// the framing messageForSigning writes before participant k in list <role>, and k's signature
+					e := strings.Split(kind, ":")
+					j, _ := strconv.Atoi(e[1])
+					k, _ := strconv.Atoi(e[3])
+					pj, pk := s.parts[j], s.parts[k]
+					sig := append([]byte{}, pj.p.Signature...)
+					sig = append(sig, []byte("\n"+e[2]+":"+pk.p.Address+"\nSig:")...)
+					sig = append(sig, pk.p.Signature...)
+					p := &pdkg.Participant{Address: pj.p.Address, Key: append([]byte{}, pj.p.Key...), Signature: sig}
+					s.parts[i] = &dkgPart{p: p, pair: pj.pair, ok: false, kok: true}
+					mop = fmt.Sprintf("P %d %s %s %s %d %d %s", i, p.Address, hx(p.Key), hx(p.Signature), 0, 1, f[3])
+					return "ok"
+				}
 				if strings.HasPrefix(kind, "keyswap:") { // address and self-signature of j, somebody else's key
 					j, _ := strconv.Atoi(kind[8:])
 					addr = s.parts[j].p.Address
@@ -359,79 +482,95 @@ func dkgsmEngine(_ []string, in *bufio.Scanner, out *bufio.Writer) {
 				if err != nil {
 					panic(err)
 				}
-				s.proc = dkg.NewDKGProcess(st, fixedIdentity{s.parts[s.me].pair}, util.NewFanOutChan[dkg.SharingOutput](), nopDKGClient{}, nil,
+				s.gate = &dkgGatedStore{Store: st}
+				s.proc = dkg.NewDKGProcess(s.gate, fixedIdentity{s.parts[s.me].pair}, util.NewFanOutChan[dkg.SharingOutput](), nopDKGClient{}, nil,
 					dkg.Config{Timeout: time.Hour, TimeBetweenDKGPhases: time.Hour, KickoffGracePeriod: 1000 * time.Hour}, quietLogger())
 				mop = fmt.Sprintf("reset %s %d", s.bid, s.me)
 				return "ok"
 			case "cmd":
-				md := &pdkg.CommandMetadata{BeaconID: s.bid}
-				var c *pdkg.DKGCommand
-				isExec := false
-				switch f[1] {
-				case "initial":
-					o := strings.Split(f[2], ":")
-					u := func(x string) uint32 { v, _ := strconv.ParseUint(x, 10, 32); return uint32(v) }
-					i64 := func(x string) int64 { v, _ := strconv.ParseInt(x, 10, 64); return v }
-					c = &pdkg.DKGCommand{Metadata: md, Command: &pdkg.DKGCommand_Initial{Initial: &pdkg.FirstProposalOptions{
-						Threshold: u(o[1]), Timeout: timestamppb.New(time.Unix(i64(o[2]), 0)), GenesisTime: timestamppb.New(time.Unix(i64(o[3]), 0)),
-						Scheme: o[4], CatchupPeriodSeconds: u(o[5]), PeriodSeconds: u(o[6]), Joining: s.idxs(o[7])}}}
-				case "resharing":
-					o := strings.Split(f[2], ":")
-					u := func(x string) uint32 { v, _ := strconv.ParseUint(x, 10, 32); return uint32(v) }
-					i64 := func(x string) int64 { v, _ := strconv.ParseInt(x, 10, 64); return v }
-					c = &pdkg.DKGCommand{Metadata: md, Command: &pdkg.DKGCommand_Resharing{Resharing: &pdkg.ProposalOptions{
-						Threshold: u(o[1]), Timeout: timestamppb.New(time.Unix(i64(o[2]), 0)), CatchupPeriodSeconds: u(o[3]),
-						Joining: s.idxs(o[4]), Remaining: s.idxs(o[5]), Leaving: s.idxs(o[6])}}}
-				case "join":
-					jo := &pdkg.JoinOptions{}
-					if g, _ := s.group(f[2]); g != nil {
-						var buf bytes.Buffer
-						if err := toml.NewEncoder(&buf).Encode(g.TOML()); err != nil {
-							panic(err)
-						}
-						jo.GroupFile = buf.Bytes()
-					}
-					c = &pdkg.DKGCommand{Metadata: md, Command: &pdkg.DKGCommand_Join{Join: jo}}
-				case "accept":
-					c = &pdkg.DKGCommand{Metadata: md, Command: &pdkg.DKGCommand_Accept{Accept: &pdkg.AcceptOptions{}}}
-				case "reject":
-					c = &pdkg.DKGCommand{Metadata: md, Command: &pdkg.DKGCommand_Reject{Reject: &pdkg.RejectOptions{}}}
-				case "execute":
-					isExec = true
-					c = &pdkg.DKGCommand{Metadata: md, Command: &pdkg.DKGCommand_Execute{Execute: &pdkg.ExecutionOptions{}}}
-				case "abort":
-					c = &pdkg.DKGCommand{Metadata: md, Command: &pdkg.DKGCommand_Abort{Abort: &pdkg.AbortOptions{}}}
-				default:
+				c, isExec := s.buildCmd(f)
+				if c == nil {
 					return "bad-op"
 				}
 				_, err := s.proc.Command(ctx, c)
 				return s.reply(classifyDKGErr(err, isExec))
 			case "pkt": // pkt <sent> <metaBeaconID> <senderIdx> <sigid|?> <keyIdx> <signedBeaconID> <signedPkt> <signedTerms>
-				sent := s.packet(f[1])
-				sender, _ := strconv.Atoi(f[3])
-				keyIdx, _ := strconv.Atoi(f[5])
-				signedPkt := s.packet(f[7])
-				signedTerms := s.terms(f[8])
-				msg := dkg.VerifMessageForSigning(f[6], signedPkt, signedTerms)
-				kp := s.parts[keyIdx].pair
-				sig, err := kp.Scheme().AuthScheme.Sign(kp.Key, msg)
-				if err != nil {
-					panic(err)
-				}
-				sigid := f[4]
-				if sigid == "?" {
-					sigid = hex.EncodeToString(sig)
-				} else if strings.HasPrefix(sigid, "short") {
-					sig = []byte{1, 2, 3}
-					sigid = hex.EncodeToString(sig)
-				}
-				f[4] = sigid
+				sent, isExec := s.buildPkt(f)
 				mop = strings.Join(f, " ")
-				sent.Metadata = &pdkg.GossipMetadata{BeaconID: f[2], Address: s.parts[sender].p.Address, Signature: sig}
-				_, isExec := sent.Packet.(*pdkg.GossipPacket_Execute)
-				_, err = s.proc.Packet(ctx, sent)
-				cl := classifyDKGErr(err, isExec)
-				return s.reply(cl)
+				_, err := s.proc.Packet(ctx, sent)
+				return s.reply(classifyDKGErr(err, isExec))
+			case "gate": // gate <cmd …> | <pkt …>: the packet is served while the command sits between its read of the stored state and what follows
+				cut := -1
+				for k, t := range f {
+					if t == "|" {
+						cut = k
+					}
+				}
+				if cut < 2 || f[1] != "cmd" || cut+1 >= len(f) || f[cut+1] != "pkt" {
+					return "bad-op"
+				}
+				cf, pf := append([]string{}, f[1:cut]...), append([]string{}, f[cut+1:]...)
+				c, cExec := s.buildCmd(cf)
+				if c == nil {
+					return "bad-op"
+				}
+				sent, pExec := s.buildPkt(pf)
+				var pktErr error
+				pktDone := make(chan struct{})
+				inWindow := false
+				s.gate.mu.Lock()
+				s.gate.saves = nil
+				s.gate.armed = true
+				s.gate.hook = func() {
+					go func() {
+						defer close(pktDone)
+						defer func() {
+							if e := recover(); e != nil {
+								pktErr = fmt.Errorf("panic: %v", e)
+							}
+						}()
+						_, pktErr = s.proc.Packet(ctx, sent)
+					}()
+					select {
+					case <-pktDone:
+						inWindow = true // the packet was served although the command had already read the state
+					case <-time.After(250 * time.Millisecond):
+					}
+				}
+				s.gate.mu.Unlock()
+				_, cmdErr := s.proc.Command(ctx, c)
+				s.gate.mu.Lock()
+				untouched := s.gate.armed
+				s.gate.armed = false
+				s.gate.mu.Unlock()
+				if untouched { // the command never read the state: serve the packet now
+					func() {
+						defer close(pktDone)
+						_, pktErr = s.proc.Packet(ctx, sent)
+					}()
+				}
+				select {
+				case <-pktDone:
+				case <-time.After(10 * time.Second):
+					return "err:other:gated packet never returned"
+				}
+				cc, pc := classifyDKGErr(cmdErr, cExec), classifyDKGErr(pktErr, pExec)
+				if pktErr != nil && strings.HasPrefix(pktErr.Error(), "panic:") {
+					pc = "err:panic"
+				}
+				s.gate.mu.Lock()
+				saves := strings.Join(s.gate.saves, ",")
+				s.gate.mu.Unlock()
+				if saves == "" {
+					saves = "-"
+				}
+				cm, pm := strings.Join(cf, " "), strings.Join(pf, " ")
+				if inWindow {
+					mop = "seq " + pm + " ;; " + cm
+					return s.reply(pc + " ;; " + cc + " ;; saves=" + saves)
+				}
+				mop = "seq " + cm + " ;; " + pm
+				return s.reply(cc + " ;; " + pc + " ;; saves=" + saves)
 			case "replay": // resend the previous packet unchanged is expressed by python as the same pkt line with the same sigid
 				return "bad-op"
 			case "complete":
